@@ -50,7 +50,7 @@ impl Scenario for C38 {
         let record_runs = if tier == Tier::Thorough { 60_000 } else { 1500 };
         if run >= record_runs {
             // L3: two baton threads, one connection each, a short task list per thread
-            let ops = ["call_gmi", "call_resend", "ticks", "create_sub", "create_session", "read", "write", "add_node", "browse", "publish", "disconnect"];
+            let ops = ["call_gmi", "call_resend", "ticks", "create_sub", "create_session", "read", "write", "add_node", "browse", "publish", "disconnect", "close_session"];
             let mut steps = Vec::new();
             for t in 0..2 {
                 if rng.chance(0.8) {
@@ -58,7 +58,7 @@ impl Scenario for C38 {
                 }
             }
             for _ in 0..rng.urange(2, 8) {
-                let op = ops[rng.weighted(&[4, 2, 4, 1, 2, 1, 1, 1, 1, 1, 1])];
+                let op = ops[rng.weighted(&[4, 2, 4, 1, 2, 1, 1, 1, 1, 1, 1, 2])];
                 steps.push(json!({"thread": rng.below(2), "op": op, "n": rng.urange(1, 3)}));
             }
             return json!({"l3": true, "sseed": rng.next_u64() >> 12, "tseed": rng.next_u64() >> 12, "steps": steps});
@@ -78,7 +78,7 @@ impl Scenario for C38 {
         for _ in 0..n {
             let conn = rng.below(2);
             match rng.below(12) {
-                0 => steps.push(json!({"conn": conn, "kind": "drop", "reconnect": rng.chance(0.7), "ticks": rng.below(3)})),
+                0 => steps.push(json!({"conn": conn, "kind": if rng.chance(0.5) { "drop" } else { "close_session" }, "reconnect": rng.chance(0.7), "ticks": rng.below(3)})),
                 1 => steps.push(json!({"conn": conn, "kind": "app_write", "ticks": rng.below(2)})),
                 _ => steps.push(json!({"conn": conn, "kind": *rng.pick(&enabled), "rseed": rng.next_u64() >> 12, "ticks": rng.below(4), "event": rng.chance(0.2)})),
             }
@@ -178,8 +178,12 @@ async fn run(plan: &Value, ctx: &mut Ctx) -> Option<std::sync::Arc<locks::Record
         let k = (s["conn"].as_u64().unwrap_or(0) as usize) % 2;
         let kind = s["kind"].as_str().unwrap_or("read").to_string();
         match kind.as_str() {
-            "drop" => {
+            "drop" | "close_session" => {
                 ctx.fault("connection_drop");
+                if kind == "close_session" && sides[k].c.is_open() {
+                    let req: SupportedMessage = CloseSessionRequest { request_header: sides[k].c.header(), delete_subscriptions: true }.into();
+                    let _ = sides[k].c.call(req).await;
+                }
                 sides[k].c.reset();
                 tokio::time::sleep(Duration::from_millis(150)).await;
                 if s["reconnect"].as_bool().unwrap_or(true) {
@@ -384,6 +388,14 @@ async fn l3_thread(server: std::sync::Arc<opcua::server::prelude::Server>, t: us
                     Some(id) => Some(c.recv_for(id, Duration::from_millis(250)).await),
                     None => None,
                 }
+            }
+            "close_session" => {
+                let req: SupportedMessage = CloseSessionRequest { request_header: c.header(), delete_subscriptions: true }.into();
+                let r = c.call(req).await;
+                // a new session on the same channel, so that the thread can go on
+                let _ = c.create_session(60_000.0).await;
+                let _ = c.activate_session(Conn::anonymous_token()).await;
+                Some(r)
             }
             "disconnect" => {
                 c.reset();
